@@ -36,6 +36,7 @@ def run(ctx):
     ctx.do(rule_version_detectable)
     ctx.do(rule_encoders)
     ctx.do(rule_decoder_plain)
+    ctx.do(rule_decoder_gets_the_text_as_given)
     ctx.do(rule_defaulted)
     ctx.do(rule_order_and_precision)
     ctx.do(rule_inner_written_by_constructor)
@@ -491,6 +492,16 @@ def rule_encoders(ctx):
               key(rel, fpi.qualname, "index-sources"), "property index no longer derived from object order / sorted dict keys",
               file=rel, line=fpi.node.lineno, function=fpi.qualname, expected="list(obj) for STIX objects, sorted(obj) for dicts",
               found="changed")
+    # ... and from nothing else: the indices of one object's keys are sort keys among each other, so they are positions in ONE
+    # sequence per kind of container (an index taken from the class table for some keys and from the object for the others
+    # interleaves custom / extension properties with the specification's)
+    o_ = fpi.params[0] if fpi.params else "obj"
+    srcs = sorted(norm(c.args[0]) for c in body_walk(fpi.node) if isinstance(c, ast.Call) and call_simple_name(c) == "_find" and c.args)
+    run.check(srcs == sorted(["list(%s)" % o_, "sorted(%s)" % o_]), R, key(rel, fpi.qualname, "one-index-space-per-container"),
+              "the position of a key is looked up in more than one sequence (or in another one than the object's own order / the "
+              "sorted keys of a dictionary): positions from different sequences are compared with each other as sort keys, so "
+              "pretty output leaves the specification order", file=rel, line=fpi.node.lineno, function=fpi.qualname,
+              expected="exactly _find(list(obj), key) and _find(sorted(obj), key)", found=srcs)
     run.floor(R, 8)
 
 
@@ -567,6 +578,41 @@ def rule_decoder_plain(ctx, rule_id="C01.encoder-siblings"):
                           function=fi.qualname, expected="json.load(s)(text) without hooks", found=short(x, 80))
     if n < 4:
         raise AnalysisError("fewer than 4 JSON decoder calls found (%d): anchors lost" % n)
+
+
+_TEXT_REWRITERS = ("sub", "subn", "replace", "strip", "lstrip", "rstrip", "lower", "upper", "casefold", "translate", "expandtabs",
+                   "normalize", "join", "format", "split", "rsplit", "splitlines", "partition", "removeprefix", "removesuffix",
+                   "title", "capitalize", "swapcase", "escape", "unescape", "quote", "unquote", "dedent")
+
+
+def rule_decoder_gets_the_text_as_given(ctx, rule_id="C01.encoder-siblings"):
+    """What is decoded is the text the caller gave.  A textual clean-up in front of the decoder (removing "trailing commas",
+    stripping comments, normalising quotes or Unicode) works on the whole text -- string VALUES included: a description
+    containing ',]' loses its comma, so parse(serialize(x)) != x for exactly the objects whose strings look like the thing the
+    clean-up is after.  For every JSON decoder call and every call of the library's own to-dictionary helper outside the tests:
+    the argument is not derived from a text-rewriting call (def-use provenance through reassignments of the parameter)."""
+    run = ctx.run
+    prog = ctx.prog
+    n = 0
+    for fi in sorted(prog.functions.values(), key=lambda f: f.id):
+        if fi.module.relpath.startswith("stix2/test") or fi.module.name.startswith(("stix2.workbench",)):
+            continue
+        k_ = 0
+        for x in body_walk(fi.node):
+            if not (isinstance(x, ast.Call) and x.args and (norm(x.func) in ("json.load", "json.loads", "simplejson.load", "simplejson.loads")
+                                                          or call_simple_name(x) == "_get_dict")):
+                continue
+            n += 1
+            k_ += 1
+            pr = flow_of(fi).prov(x.args[0])
+            used = sorted(pr.calls & set(_TEXT_REWRITERS))
+            run.check(not used, rule_id, key(fi.module.relpath, fi.qualname, "decoded-text-as-given#%d" % k_),
+                      "the text handed to the JSON decoder went through a text-rewriting call (%s): such a clean-up also rewrites "
+                      "the string values inside the document, so what is parsed is not what was written" % ", ".join(used),
+                      file=fi.module.relpath, line=x.lineno, function=fi.qualname, expected="the caller's text, unchanged",
+                      found=short(x, 80))
+    if n < 8:
+        raise AnalysisError("fewer than 8 decoding sites found (%d): anchors lost" % n)
 
 
 def rule_dictionaries_keep_their_order(ctx, rule_id="C01.spec-order"):
